@@ -873,6 +873,8 @@ pub fn random_sched(i: u64, rng: &mut StdRng, a: &Args) -> Sched {
 }
 
 pub fn run(a: &Args) -> Value {
+    // `sub`: the tracing subscriber of the process (none / fmt at TRACE level / otel): what the dispatch logs must not matter
+    crate::wire::install_subscriber(&a.opt_str("sub", "none"));
     let mut scheds: Vec<Sched> = a.sched.as_deref().map(crate::load_scheds).unwrap_or_default();
     let mut rng = StdRng::seed_from_u64(a.seed ^ 0xC11E47);
     for i in 0..a.random {
